@@ -1,2 +1,120 @@
-(* C05 — responses do not depend on the order in which concurrent resolvers complete. *)
-From AG Require Import Sched.
+(* C05 — responses do not depend on the order in which concurrent resolvers
+   complete; and the serial half of C04 (mutation root fields run one at a time,
+   in document order).  Model: theories/Sched.v (future tree of the static
+   executor: try_join_all as futures-util's small TryJoinAll polls it, the serial
+   loop of resolve_container_serial, Option catch, gated resolvers); a schedule is
+   the order in which the gates are opened; [run s t = Some r] means the schedule
+   lets the request complete (it is fair for t) and r is the response. *)
+From AG Require Import Sched SchedProofs.
+From Coq Require Import Permutation.
+Open Scope N_scope.
+
+(* (a) for ALL trees and ALL fair schedules the response data is the same *)
+Theorem C05_data : forall t s1 s2 r1 r2,
+  run s1 t = Some r1 -> run s2 t = Some r2 -> sr_data r1 = sr_data r2.
+Proof. exact data_schedule_independent. Qed.
+Check C05_data : forall t s1 s2 r1 r2, run s1 t = Some r1 -> run s2 t = Some r2 -> sr_data r1 = sr_data r2.
+Print Assumptions C05_data.
+
+(* (b) the multiset of error paths is the same when no try_join_all has a failing
+   child next to another child that raises any error (race_free) *)
+Theorem C05_errors : forall t s1 s2 r1 r2,
+  race_free t = true -> run s1 t = Some r1 -> run s2 t = Some r2 ->
+  Permutation (sr_errors r1) (sr_errors r2).
+Proof. exact errors_schedule_independent. Qed.
+Check C05_errors : forall t s1 s2 r1 r2, race_free t = true -> run s1 t = Some r1 -> run s2 t = Some r2 ->
+  Permutation (sr_errors r1) (sr_errors r2).
+Print Assumptions C05_errors.
+
+(* both are what can be read off the tree without any schedule *)
+Theorem C05_denotation : forall s t r, run s t = Some r ->
+  sr_data r = ref_data t /\ (race_free t = true -> Permutation (sr_errors r) (ref_errors t)).
+Proof. intros s t r H. split; [exact (run_data s t r H)|intros R; exact (run_errors s t r R H)]. Qed.
+Print Assumptions C05_denotation.
+
+(* and what the run with every resolver ready answers (which always completes) *)
+Theorem C05_same_as_ready_run : forall t s r, fresh t = true -> run s t = Some r ->
+  exists r0, run [] (ungate t) = Some r0 /\ sr_data r = sr_data r0 /\
+             (race_free t = true -> Permutation (sr_errors r) (sr_errors r0)).
+Proof. exact same_as_ready_run. Qed.
+Print Assumptions C05_same_as_ready_run.
+
+(* the quantifier "all fair schedules" is never empty: every tree has a schedule that lets it complete *)
+Theorem C05_fair_schedule_exists : forall t, exists s r, run s t = Some r.
+Proof. exact fair_schedule_exists. Qed.
+Print Assumptions C05_fair_schedule_exists.
+
+(* the per-case verdict never reports "model violates the property outside the known classes" *)
+Theorem C05_verdict_sound : forall t s m ready,
+  fresh t = true -> known_class t = 0 -> run s t = Some m -> run [] (ungate t) = Some ready ->
+  meets t ready m = true.
+Proof. exact verdict_sound. Qed.
+Print Assumptions C05_verdict_sound.
+
+(* refuted today, class 1 (uncaught-race): { id score } with both resolvers failing at
+   non-null positions; opening the gate of id first reports only id's error, opening score's
+   first only score's *)
+Theorem C05_uncaught_race_refuted :
+  errors_under [0%nat] x_race = Some [[PF 23]] /\ errors_under [1%nat] x_race = Some [[PF 25]] /\
+  class_of x_race = Some 1.
+Proof. exact w_uncaught_race. Qed.
+Print Assumptions C05_uncaught_race_refuted.
+
+(* refuted today, class 2 (uncaught-error-drops-sibling-errors): { a { id } score } with a.id
+   (caught at a) and score (uncaught) failing: the error at a.id is reported only if a.id
+   completes before score *)
+Theorem C05_sibling_drop_refuted :
+  errors_under [0%nat; 1%nat] x_drop = Some [[PF 25]; [PF 20; PF 23]] /\
+  errors_under [1%nat] x_drop = Some [[PF 25]] /\
+  class_of x_drop = Some 2.
+Proof. exact w_sibling_drop. Qed.
+Print Assumptions C05_sibling_drop_refuted.
+
+(* non-vacuity: a race-free tree with five gates and two failing resolvers; two fair
+   schedules give the same data and the same errors in a different order; an unfair one gives None *)
+Theorem C05_nonvacuous :
+  class_of x_caught = Some 0 /\
+  errors_under [0; 1; 3; 2; 4]%nat x_caught = Some [[PF 20; PF 23]; [PF 30; PF 23]] /\
+  errors_under [1; 0; 3; 2; 4]%nat x_caught = Some [[PF 30; PF 23]; [PF 20; PF 23]] /\
+  data_under [0; 1; 3; 2; 4]%nat x_caught = Some (VObj [(20, VNull); (30, VNull); (24, VStr [110])]) /\
+  data_under [1; 0; 3; 2; 4]%nat x_caught = Some (VObj [(20, VNull); (30, VNull); (24, VStr [110])]) /\
+  errors_under [0; 1]%nat x_caught = None.
+Proof. exact w_caught_reordered. Qed.
+Print Assumptions C05_nonvacuous.
+
+(* ---- C04, second half: mutation root fields are executed one at a time, in order ---- *)
+(* after ANY schedule prefix the event log splits into consecutive segments, the i-th
+   holding only events of root field i and of resolvers beneath it *)
+Theorem C04_serial : forall kd done cs s f n l,
+  run_log s (FSeq kd done cs) = (f, n, l) -> seg_ok (map all_events cs) (evs_of l).
+Proof. exact serial_log. Qed.
+Check C04_serial : forall kd done cs s f n l,
+  run_log s (FSeq kd done cs) = (f, n, l) -> seg_ok (map all_events cs) (evs_of l).
+Print Assumptions C04_serial.
+
+(* positional form: when the root fields have different events (distinct response keys),
+   no event (Start or End) of root field j or of anything beneath it precedes an event of
+   root field i < j or of anything beneath it *)
+Theorem C04_serial_order : forall kd done cs s f n l,
+  run_log s (FSeq kd done cs) = (f, n, l) -> disjoint_sets (map all_events cs) ->
+  forall i j x y, (i < j)%nat ->
+    In x (all_events (nth i cs (FDone (IVal VNull)))) -> In y (all_events (nth j cs (FDone (IVal VNull)))) ->
+    ~ before y x (evs_of l).
+Proof. exact serial_order. Qed.
+Print Assumptions C04_serial_order.
+
+(* non-vacuity: mutation { a { id name } k: a { id } name }: the two gated resolvers below
+   the first root field complete in either order, the second root field starts after both *)
+Theorem C04_serial_nonvacuous :
+  events_under [0; 2; 1; 3]%nat x_mut =
+    Some [IStart [PF 20]; IEnd [PF 20]; IStart [PF 20; PF 23]; IStart [PF 20; PF 24];
+          IEnd [PF 20; PF 24]; IEnd [PF 20; PF 23];
+          IStart [PF 30]; IEnd [PF 30]; IStart [PF 30; PF 23]; IEnd [PF 30; PF 23];
+          IStart [PF 24]; IEnd [PF 24]] /\
+  events_under [0; 1; 2; 3]%nat x_mut =
+    Some [IStart [PF 20]; IEnd [PF 20]; IStart [PF 20; PF 23]; IStart [PF 20; PF 24];
+          IEnd [PF 20; PF 23]; IEnd [PF 20; PF 24];
+          IStart [PF 30]; IEnd [PF 30]; IStart [PF 30; PF 23]; IEnd [PF 30; PF 23];
+          IStart [PF 24]; IEnd [PF 24]].
+Proof. exact w_serial. Qed.
+Print Assumptions C04_serial_nonvacuous.
